@@ -5,7 +5,7 @@ PROP = "C02"
 
 
 def ipcbed():
-    return build.harness("ipcbed", "asan", ["ipcbed_main.c", "ipcbed_server.c", "vp.c"], wraps=["random", "srand"])
+    return build.harness("ipcbed", "asan", ["ipcbed_main.c", "ipcbed_server.c", "vp.c", "vpguard.c"], wraps=["random", "srand", "mmap", "munmap"])
 
 
 STAGE_LIST = [simple.Stage("c02", ipcbed, ["--mode", "c02"], quick=96, thorough=4000, timeout=1200, chunk=2)]
